@@ -222,7 +222,7 @@ impl Property for C07 {
          follower in {nothing, empty entry, 9-byte entry, entry filling the rest of the block exactly}; plus generated \
          sequences of 1..6 entries at generated offsets. route 2 (through files): generated append-dominated histories with \
          lengths aimed at block ends (0..14 bytes before), file ends and the 7-bytes-left case, payloads up to 320 KiB \
-         spanning 3 files of 128 KiB, read back with range(..) after a restart against the reference model. evaluations = \
+         spanning 3 files of 128 KiB, read back with range(..) after a restart and compared with what range(..) returned before the drop (model-free). evaluations = \
          round-trips. non-trivial = an entry that starts or ends within 14 bytes of a block end or spans >= 2 blocks; \
          distinct = hash(start offset, lengths) / hash(concrete history)."
             .to_string()
@@ -369,11 +369,34 @@ impl Property for C07 {
         let file_bytes = crate::util::file_bytes();
         for sop in &ops {
             let frames_before = exec.driver.tracer.frames.len();
-            let step = exec.step(sop)?;
-            exec.check_outcome(&step)?;
-            if matches!(step.cop, COp::Restart { .. }) {
-                exec.check_state("after restart")?;
+            let cop = exec.resolve(sop);
+            let before = if matches!(cop, COp::Restart { .. }) {
+                Some(exec.driver.observe().map_err(|_| CaseError::Skip("live-state-unobservable".to_string()))?)
+            } else {
+                None
+            };
+            let step = exec.step_concrete(cop)?;
+            exec.usable_or_skip(&step)?;
+            if let Some(before) = before {
+                // every entry written must be read back identical and in order: compare the records (positions and
+                // payload bytes) of every queue before the drop and after the re-open; next positions of empty
+                // queues are other properties' concern
                 env.evals(1);
+                let after = exec.driver.observe().map_err(|msg| exec.failure(format!("after restart: {msg}"), "observe-failed", json!({})))?;
+                for (name, queue) in &before {
+                    if queue.recs.is_empty() {
+                        continue;
+                    }
+                    let got = after.get(name).map(|other| &other.recs[..]).unwrap_or(&[]);
+                    if got != &queue.recs[..] {
+                        let positions = |recs: &[(u64, crate::model::Bytes)]| recs.iter().map(|(pos, bytes)| format!("{pos}:{}B", bytes.len())).take(12).collect::<Vec<_>>();
+                        return Err(exec.failure(
+                            format!("op #{} restart: records of queue {name:?} written before the restart {:?} are read back as {:?}", step.idx, positions(&queue.recs), positions(got)),
+                            "entries-not-read-back",
+                            json!({}),
+                        ));
+                    }
+                }
             }
             let frames = &exec.driver.tracer.frames[frames_before..];
             if let (Some(first), Some(last)) = (frames.first(), frames.last()) {
@@ -394,7 +417,6 @@ impl Property for C07 {
                 }
             }
         }
-        exec.check_state("at the end")?;
         env.class_n("file-route:entry-near-block-end", near_block_end);
         env.class_n("file-route:entry-multi-frame", multi_block);
         env.class_n("file-route:entry-spanning-files", multi_file);
